@@ -301,6 +301,22 @@ def worker(spec):
                             probs.append("show_contexts=False printed something other than frame and code lines")
                 except ParseError as e:
                     probs.append("text does not parse under the documented prefix scheme: %s" % e)
+            if st.error is not None:
+                # the error block of the top-level stack, line by line: heading, then every physical line of the
+                # standard rendering of the exception under the two-space prefix (blank ones included)
+                import traceback as _tb
+                exp_err = ["  Error while extracting stack:\n"]
+                for chunk in _tb.format_exception(type(st.error), st.error, st.error.__traceback__):
+                    if chunk != "Traceback (most recent call last):\n":
+                        exp_err.extend("  " + sub for sub in chunk.splitlines(True))
+                res.count("toplevel_error_blocks_compared")
+                if lines[-len(exp_err):] != exp_err:
+                    n = 0
+                    tail = lines[-len(exp_err):]
+                    while n < min(len(tail), len(exp_err)) and tail[n] == exp_err[n]:
+                        n += 1
+                    probs.append("error block differs from the indented standard rendering at its line %d: %r vs %r" % (
+                        n, tail[n:n + 1], exp_err[n:n + 1]))
             if has_substructure(st):
                 res.nontrivial(interp, spec["seed"], case, asc, ctx, hid)
             if probs:
